@@ -451,13 +451,13 @@ func infoGetters(c *Ctx, id string) {
 			}
 			got := avString(out.Ret[0])
 			if st.B(recv + "." + field + "==nil") {
-				if strings.Contains(got, recv+"."+field) && !strings.Contains(got, "Chan") {
-					return "nothing recorded yet, but the (nil) recorded value is returned instead of waiting for the first announcement"
+				if recvs != 1 || !strings.Contains(got, "recv") {
+					return "nothing recorded yet, but " + got + " is returned instead of waiting for the first announcement"
 				}
 				return ""
 			}
-			if !strings.Contains(got, recv+"."+field) {
-				return "a membership is recorded but " + got + " is returned"
+			if recvs != 0 || !strings.Contains(got, recv+"."+field) {
+				return "a membership is recorded but " + got + " is returned (or a queue is polled first)"
 			}
 			return ""
 		}, "recorded → return it; nothing recorded → wait for the first announcement")
@@ -465,4 +465,170 @@ func infoGetters(c *Ctx, id string) {
 	if n < 3 {
 		c.Undecided(id, "info-getter", 0, "only %d waiting GetInfo implementations found", n)
 	}
+}
+
+// firstInfoHandOver: the bus listener of every bus-fed membership hands the announcement over to a GetInfo that may be
+// waiting ⇔ it is the first one (nothing was recorded before) — exhaustive over "recorded before or not"; it records
+// the announcement in both cases. With the polarity flipped the instance waits for its numbering for ever.
+func firstInfoHandOver(c *Ctx, id string) {
+	w := c.W
+	model := w.NamedType("membership", "Model")
+	c.need(model != nil, id, "membership.Model")
+	n := 0
+	for _, gi := range w.implsOf("membership", "Membership", "GetInfo") {
+		recvT := recvTypeName(gi.Signature.Recv().Type())
+		var lis *ssa.Function
+		for _, fn := range w.ModFuncs {
+			if fn.Parent() != nil || fn.Signature.Recv() == nil || fn.Pkg != gi.Pkg || recvTypeName(fn.Signature.Recv().Type()) != recvT || len(fn.Params) != 2 {
+				continue
+			}
+			if p, ok := fn.Params[1].Type().(*types.Pointer); ok && types.Identical(p.Elem(), model) && len(w.usesAsValue(fn)) > 0 {
+				lis = fn
+			}
+		}
+		if lis == nil {
+			continue
+		}
+		field := ""
+		allInstrs(lis, func(in ssa.Instruction) {
+			if st, ok := in.(*ssa.Store); ok {
+				if f := fieldOfAddr(st.Addr); f != nil {
+					if p, ok := f.Type().(*types.Pointer); ok && types.Identical(p.Elem(), model) {
+						field = f.Name()
+					}
+				}
+			}
+		})
+		if field == "" {
+			continue
+		}
+		n++
+		recv, mp := lis.Params[0].Name(), lis.Params[1].Name()
+		h := &Harness{Fn: lis, Bools: []string{recv + "." + field + "==nil"}, Quiet: quietLog}
+		c.oae(id, "first-info@"+fname(lis), lis.Pos(), h, func(st *State, out *Outcome) string {
+			if out.Panicked {
+				return "panics"
+			}
+			goes := 0
+			for _, e := range out.Trace {
+				if strings.HasPrefix(e.Name, "go:") {
+					goes++
+				}
+			}
+			want := 0
+			if st.B(recv + "." + field + "==nil") {
+				want = 1
+			}
+			if goes != want {
+				return fmt.Sprintf("%d hand-overs with 'nothing recorded before' = %v", goes, st.B(recv+"."+field+"==nil"))
+			}
+			if f := out.Final(recv + "." + field); f == nil || !strings.Contains(avString(f), mp) {
+				return "the announcement is not recorded: " + avString(out.Final(recv+"."+field))
+			}
+			return ""
+		}, "record always; hand over to a waiting GetInfo ⇔ nothing was recorded before")
+	}
+	if n < 3 {
+		c.Undecided(id, "first-info", 0, "only %d bus-fed membership listeners found", n)
+	}
+}
+
+// cbmRoundInputs: a round works on what it read: the index read and its parse end the round on error (everything after
+// is under err == nil); the live list is exactly the recorded instances in index order (append of *instance under
+// instance != nil); updateIndex returns the store's error; the registration records the join time it announced.
+func cbmRoundInputs(c *Ctx, id string) {
+	w := c.W
+	mon := w.Method("couchbase", "cbMembership", "monitor")
+	ui := w.Method("couchbase", "cbMembership", "updateIndex")
+	reg := w.Method("couchbase", "cbMembership", "register")
+	get := w.Func("couchbase", "Get")
+	c.need(mon != nil && ui != nil && reg != nil && get != nil, id, "cbMembership.monitor / updateIndex / register, couchbase.Get")
+	var idxGet, parse *ssa.Call
+	allInstrs(mon, func(in ssa.Instruction) {
+		call, ok := in.(*ssa.Call)
+		if !ok {
+			return
+		}
+		if call.Common().StaticCallee() == get && idxGet == nil {
+			idxGet = call
+		}
+		if strings.HasSuffix(calleeName(call.Common()), "sonic.Unmarshal") && parse == nil {
+			parse = call
+		}
+	})
+	okIn := idxGet != nil && parse != nil
+	if okIn {
+		allInstrs(mon, func(in ssa.Instruction) {
+			if _, isGo := in.(*ssa.Go); isGo {
+				g1 := errGuard(in.Block(), true, func(v ssa.Value) bool { return isExtractOf(v, idxGet) })
+				g2 := errGuard(in.Block(), true, func(v ssa.Value) bool { return v == ssa.Value(parse) })
+				if !g1 || !g2 {
+					okIn = false
+				}
+			}
+		})
+		if !errGuard(parse.Block(), true, func(v ssa.Value) bool { return isExtractOf(v, idxGet) }) {
+			okIn = false
+		}
+	}
+	c.Check(okIn, id, "cbm:round-inputs", mon.Pos(), "the index is parsed only if it was read, the instances are read only if it parsed", "a monitor round goes on after it failed to read or parse the index: it would number the group from an empty or stale list")
+	okF, nApp := false, 0
+	allInstrs(mon, func(in ssa.Instruction) {
+		cc := callOf(in)
+		if cc == nil {
+			return
+		}
+		if b, ok := cc.Value.(*ssa.Builtin); !ok || b.Name() != "append" {
+			return
+		}
+		if sl, ok := cc.Args[0].Type().Underlying().(*types.Slice); !ok || !strings.HasSuffix(types.TypeString(sl.Elem(), nil), "couchbase.Instance") {
+			return
+		}
+		nApp++
+		for _, g := range guardsOf(in.Block()) {
+			v, pol := stripNot(g.Cond, g.Branch)
+			if eq, isCmp := isNilCompare(v, func(x ssa.Value) bool { return true }); isCmp && eq != pol {
+				okF = true
+			}
+		}
+	})
+	c.Check(okF && nApp == 1, id, "cbm:live-list", mon.Pos(), "the live list is the recorded (non-nil) instances, in index order", fmt.Sprintf("the live list is not built by appending exactly the non-nil recorded instances (%d appends, nil-guarded: %v)", nApp, okF))
+	okU := false
+	allInstrs(ui, func(in ssa.Instruction) {
+		if call, ok := in.(*ssa.Call); ok && call.Common().StaticCallee() != nil && call.Common().StaticCallee().Name() == "UpdateDocument" {
+			okU = reported(errorSinks(call))
+			last := call.Common().Args[len(call.Common().Args)-1]
+			fromParam := strings.Contains(w.Origin(last), "param(")
+			if a := asAlloc(last); a != nil {
+				if sv, ok := singleStore(a); ok {
+					if _, isP := unwrap(sv).(*ssa.Parameter); isP {
+						fromParam = true // &cas of the parameter
+					}
+				}
+			}
+			if !fromParam {
+				okU = false
+			}
+		}
+	})
+	c.Check(okU, id, "cbm:update-index", ui.Pos(), "updateIndex writes under the CAS it was given and returns the store's error", "updateIndex does not return the error of its conditional write (a lost CAS race would look like success and two members would number the group differently)")
+	jt := w.Field("couchbase", "cbMembership", "clusterJoinTime")
+	okJ := false
+	var stored ssa.Value
+	allInstrs(reg, func(in ssa.Instruction) {
+		if st, ok := in.(*ssa.Store); ok && fieldOfAddr(st.Addr) == jt {
+			stored = st.Val
+		}
+	})
+	if stored != nil {
+		so := w.Origin(stored)
+		allInstrs(reg, func(in ssa.Instruction) {
+			if call, ok := in.(*ssa.Call); ok && call.Common().StaticCallee() != nil && call.Common().StaticCallee().Name() == "createIndex" {
+				if w.Origin(call.Common().Args[len(call.Common().Args)-1]) == so {
+					okJ = true
+				}
+			}
+		})
+	}
+	c.Check(okJ, id, "cbm:join-time", reg.Pos(), "the join time kept for the heart-beats is the one written to the index", "the registration does not keep (clusterJoinTime ←) the join time it wrote to the index: later heart-beats carry another join time and the join order — the numbering — changes")
 }
